@@ -55,12 +55,22 @@ thread_local! {
     pub static TRACES: RefCell<usize> = const { RefCell::new(0) };
     /// (seq, kind, id): kind b'H' header token, b'E' element token
     pub static DROPS: RefCell<Vec<(usize, u8, u32)>> = const { RefCell::new(Vec::new()) };
+    /// zero-sized element tokens number their destructions from this many `E` entries on
+    /// (start of the current step of a sequence)
+    pub static ZBASE: std::cell::Cell<usize> = const { std::cell::Cell::new(0) };
     pub static CREATED: RefCell<Vec<(u8, u32)>> = const { RefCell::new(Vec::new()) };
     /// metadata bytes seen by `CM::layout` / `CM::from_thin`
     pub static METAS: RefCell<Vec<(u8, Vec<u8>)>> = const { RefCell::new(Vec::new()) };
 }
 
+/// Zero-sized element tokens destructed from now on are numbered 0, 1, 2, …
+pub fn start_zst_epoch() {
+    let n = DROPS.with(|d| d.borrow().iter().filter(|x| x.1 == b'E').count());
+    ZBASE.with(|z| z.set(n));
+}
+
 pub fn reset_logs() {
+    ZBASE.with(|z| z.set(0));
     TRACES.with(|t| *t.borrow_mut() = 0);
     DROPS.with(|d| d.borrow_mut().clear());
     CREATED.with(|d| d.borrow_mut().clear());
@@ -168,7 +178,7 @@ macro_rules! ztok_elem {
         impl Drop for $name {
             fn drop(&mut self) {
                 let n = DROPS.with(|d| d.borrow().iter().filter(|x| x.1 == b'E').count());
-                log_drop(b'E', n as u32);
+                log_drop(b'E', n.saturating_sub(ZBASE.with(|z| z.get())) as u32);
             }
         }
         impl Elem for $name {
@@ -287,5 +297,16 @@ impl Hdr for [u8; 3] {
     }
     fn ok(&self) -> bool {
         *self == [7, 8, 9]
+    }
+}
+
+/// Token of the C11 "arena still usable" probe allocations (drop log kind `P`).
+pub struct ProbeTok {
+    pub id: u32,
+}
+impl Drop for ProbeTok {
+    fn drop(&mut self) {
+        log_drop(b'P', self.id);
+        self.id = TOMB;
     }
 }
